@@ -180,7 +180,8 @@ lemma sign_mul_abs (s : ℝ) : (if s < 0 then (-1 : ℝ) else 1) * |s| = s := by
   · rw [abs_of_neg hs]; ring
   · rw [abs_of_nonneg (not_lt.mp hs)]; ring
 
-/-- `Angle(0, 0, s)`: whole degrees `d`, minutes `mi`, seconds `sec` of `|s|`, the degrees taken mod 360 -/
+/-- `Angle(0, 0, s)`: whole degrees `d`, minutes `mi`, seconds `sec` of `|s|`, the degrees taken mod 360
+    (the final `reduce_deg` of `dms2deg` is the identity over ℝ: the value is below 360) -/
 lemma angDms_zero_zero_decomp (s : ℝ) : ∃ (d mi : ℤ) (sec : ℝ), 0 ≤ d ∧ 0 ≤ mi ∧ 0 ≤ sec ∧
     (d : ℝ) * 3600 + (mi : ℝ) * 60 + sec = |s| ∧
     angDms 0 0 s = (if s < 0 then (-1 : ℝ) else 1) * (((d % 360 : ℤ) : ℝ) + (mi : ℝ) / 60 + sec / 3600) := by
@@ -188,6 +189,24 @@ lemma angDms_zero_zero_decomp (s : ℝ) : ∃ (d mi : ℤ) (sec : ℝ), 0 ≤ d 
   have hq : (0 : ℝ) ≤ |s| / 60 := by positivity
   have hm0 : (0 : ℤ) ≤ ⌊|s| / 60⌋ := Int.floor_nonneg.mpr hq
   have hfl1 : ((⌊|s| / 60⌋ : ℤ) : ℝ) ≤ |s| / 60 := Int.floor_le _
+  have hfl2' : |s| / 60 < ((⌊|s| / 60⌋ : ℤ) : ℝ) + 1 := Int.lt_floor_add_one _
+  -- the value before the final reduce_deg is below 360 in absolute value
+  have small : ∀ (d mi : ℤ) (sec : ℝ), 0 ≤ d → 0 ≤ mi → mi < 60 → 0 ≤ sec → sec < 60 →
+      angReduce ((if s < 0 then (-1 : ℝ) else 1) * (((d % 360 : ℤ) : ℝ) + (mi : ℝ) / 60 + sec / 3600)) =
+        (if s < 0 then (-1 : ℝ) else 1) * (((d % 360 : ℤ) : ℝ) + (mi : ℝ) / 60 + sec / 3600) := by
+    intro d mi sec hd hmi hmi60 hsec hsec60
+    apply angReduce_small
+    have hs : |(if s < 0 then (-1 : ℝ) else 1)| = 1 := by split_ifs <;> simp
+    have h1 : (0 : ℝ) ≤ ((d % 360 : ℤ) : ℝ) := by exact_mod_cast Int.emod_nonneg d (by norm_num)
+    have h2 : ((d % 360 : ℤ) : ℝ) ≤ 359 := by
+      have : d % 360 ≤ 359 := by omega
+      exact_mod_cast this
+    have h3 : (0 : ℝ) ≤ (mi : ℝ) := by exact_mod_cast hmi
+    have h4 : (mi : ℝ) ≤ 59 := by
+      have : mi ≤ 59 := by omega
+      exact_mod_cast this
+    rw [abs_mul, hs, one_mul, abs_of_nonneg (by positivity)]
+    linarith
   unfold angDms
   simp only [lt_self_iff_false, false_or, plt, lit0, decide_eq_true_eq, Int.natAbs_zero, Nat.cast_zero,
     pabs, ple, lit60, lit3600, lit1, zero_add, ofInt]
@@ -203,19 +222,22 @@ lemma angDms_zero_zero_decomp (s : ℝ) : ∃ (d mi : ℤ) (sec : ℝ), 0 ≤ d 
       simp only [hmq, if_true, hfl2]
       rw [Int.fmod_eq_emod_of_nonneg _ (by norm_num : (0 : ℤ) ≤ 60),
         Int.fmod_eq_emod_of_nonneg _ (by norm_num : (0 : ℤ) ≤ 360)]
-      refine ⟨⌊|s| / 60⌋ / 60, ⌊|s| / 60⌋ % 60, |s| - 60 * ((⌊|s| / 60⌋ : ℤ) : ℝ), by omega, by omega, by linarith, ?_, rfl⟩
+      refine ⟨⌊|s| / 60⌋ / 60, ⌊|s| / 60⌋ % 60, |s| - 60 * ((⌊|s| / 60⌋ : ℤ) : ℝ), by omega, by omega, by linarith, ?_,
+        small _ _ _ (by omega) (by omega) (by omega) (by linarith) (by linarith)⟩
       have h2 : ((⌊|s| / 60⌋ / 60 * 60 + ⌊|s| / 60⌋ % 60 : ℤ) : ℝ) = ((⌊|s| / 60⌋ : ℤ) : ℝ) := by
         exact_mod_cast Int.ediv_mul_add_emod _ _
       push_cast at h2
       linarith
     · simp only [hm60, if_false, imod]
       rw [Int.fmod_eq_emod_of_nonneg _ (by norm_num : (0 : ℤ) ≤ 360)]
-      refine ⟨0, ⌊|s| / 60⌋, |s| - 60 * ((⌊|s| / 60⌋ : ℤ) : ℝ), le_refl _, hm0, by linarith, by push_cast; ring, rfl⟩
+      refine ⟨0, ⌊|s| / 60⌋, |s| - 60 * ((⌊|s| / 60⌋ : ℤ) : ℝ), le_refl _, hm0, by linarith, by push_cast; ring,
+        small _ _ _ (le_refl _) hm0 (by omega) (by linarith) (by linarith)⟩
   · simp only [h60, if_false, imod]
     have h0 : ¬ ((0 : ℤ) ≥ 60) := by norm_num
     simp only [h0, if_false]
     rw [Int.fmod_eq_emod_of_nonneg _ (by norm_num : (0 : ℤ) ≤ 360)]
-    exact ⟨0, 0, |s|, le_refl _, le_refl _, habs, by push_cast; ring, rfl⟩
+    exact ⟨0, 0, |s|, le_refl _, le_refl _, habs, by push_cast; ring,
+      small 0 0 |s| (le_refl _) (le_refl _) (by norm_num) habs (not_le.mp h60)⟩
 
 /-- `Angle(0, 0, s)` is `s / 3600` degrees as long as `|s|` is less than a full turn -/
 lemma angDms_zero_zero (s : ℝ) (h : |s| < 1296000) : angDms 0 0 s = s / 3600 := by
